@@ -99,9 +99,22 @@ def _sections(draw, ctx):
         for ln in lines:
             out.append(ln)
             if '"' not in ln["text"] and draw(st.integers(0, 4)) == 0:
-                how = draw(st.integers(0, 4))
+                how = draw(st.integers(0, 6))
                 tx = ln["text"]
-                tx2 = [tx, tx.swapcase(), tx + " ", tx.strip(), tx.title()][how]
+                if how >= 5:
+                    # LONG near-twins on one tick: the same 64 / 100 / 300 characters, then one differing character
+                    # (or one differing character in the middle): each line carries its own text
+                    width = draw(st.sampled_from([61, 64, 65, 100, 300]))
+                    base = (tx + " " + "la di da " * 40)[:max(width, len(tx) + 1)]
+                    if how == 5:
+                        out[-1] = dict(ln, text=base + "1")
+                        tx2 = base + "2"
+                    else:
+                        mid = len(tx) + (len(base) - len(tx)) // 2
+                        out[-1] = dict(ln, text=base[:mid] + "x" + base[mid:])
+                        tx2 = base[:mid] + "y" + base[mid:]
+                else:
+                    tx2 = [tx, tx.swapcase(), tx + " ", tx.strip(), tx.title()][how]
                 out.append(dict(ln, text=tx2, lp=draw(_pad)))
         lines = out
         ticks = [ln["tick"] for ln in lines]
